@@ -21,10 +21,18 @@
 
    Method: a partial-correctness triple over the state+crash monad (`tri`, a
    crashed computation satisfies every postcondition; runs never crash by
-   InvProofs.do_pass_ipre), two regimes of one invariant (OS: not stopping yet,
-   OB c sg0 fz: stopping, the group c being stopped), and a relation `ext w w'`
-   ("w' differs from w only where the invariant does not look") under which
-   most of the model is handled wholesale (`calm`). *)
+   InvProofs.do_pass_ipre), two regimes of one invariant (OS: not stopping yet;
+   OB c sg0 fz: stopping, c = Some (r, g) when stop_groups = r ++ [g] and g is
+   being stopped by stop_all, sg0 an earlier value of stop_groups, fz a set of
+   processes known to be stopped), and a relation `ext w w'` ("w' differs from
+   w only where the invariant does not look") under which most of the model is
+   handled wholesale (`calm`).  At boundaries: BI w = (OS w and mood >= 1) or
+   OBb (OB and some process is unstopped) or FIN (exited, nothing unstopped).
+
+   Also exported for Liveness.v: BI_mood (mood < 1 at a boundary implies the
+   shutdown is announced), stopped_absorbing_step (after the announcement a
+   stopped process stays stopped), shrink_step, pop_step (a last group whose
+   processes are all stopped is removed by the next pass). *)
 From Coq Require Import ZArith List Bool Lia Arith ZifyBool.
 Import ListNotations.
 Require Import SV.Life.Model SV.Life.Inv SV.Life.ProcLemmas SV.Life.Trace SV.Life.Quiet
@@ -258,11 +266,11 @@ Definition Core (sg0 : list nat) (fz : nat -> Prop) (w : world) : Prop :=
   (exists popped, sg0 = stop_groups w ++ popped) /\
   (forall j, fz j -> in_stopped_states (sts w j) = true).
 Definition nofz : nat -> Prop := fun _ => False.
-Definition cur (c : option nat) (w : world) : Prop :=
-  match c with Some g => exists r, stop_groups w = r ++ [g] | None => True end.
-Definition allowed (c : option nat) (i : nat) : Prop :=
-  match c with Some g => In i (g_procs (gc g)) | None => False end.
-Definition OB (c : option nat) (sg0 : list nat) (fz : nat -> Prop) (w : world) : Prop :=
+Definition cur (c : option (list nat * nat)) (w : world) : Prop :=
+  match c with Some (r, g) => stop_groups w = r ++ [g] | None => True end.
+Definition allowed (c : option (list nat * nat)) (i : nat) : Prop :=
+  match c with Some (_, g) => In i (g_procs (gc g)) | None => False end.
+Definition OB (c : option (list nat * nat)) (sg0 : list nat) (fz : nat -> Prop) (w : world) : Prop :=
   Core sg0 fz w /\ exited w = false /\ cur c w.
 Definition FIN (sg0 : list nat) (fz : nat -> Prop) (w : world) : Prop :=
   Core sg0 fz w /\ exited w = true /\ any_unstopped gconfs w = false.
@@ -292,7 +300,7 @@ Qed.
 Lemma OB_resp c sg0 fz : respects (OB c sg0 fz).
 Proof.
   intros w w' X (H1 & H2 & H3). split; [eapply Core_resp; eassumption|]. destruct X. split; [congruence|].
-  destruct c; cbn in *; [rewrite x_sg0; exact H3 | exact Logic.I].
+  destruct c as [[r g]|]; cbn in *; [rewrite x_sg0; exact H3 | exact Logic.I].
 Qed.
 
 (* ---------- the only writer of the state map *)
@@ -324,12 +332,12 @@ Proof.
   intros w (((H1 & H2 & H3 & H4 & (done & Hd1 & Hd2) & H6 & Hfz) & H7 & H8) & Hst & Hal).
   destruct (cs_cases U i new e w) as [[_ ->] | [Hne (w' & x & -> & Eo & Es & E1 & E2 & E3 & E4)]].
   - repeat split; try assumption. exists done. auto.
-  - split; [|split; [congruence | destruct c; cbn in *; [rewrite E2; exact H8 | exact Logic.I]]].
+  - split; [|split; [congruence | destruct c as [[r0 g0]|]; cbn in *; [rewrite E2; exact H8 | exact Logic.I]]].
     repeat split; try congruence.
     + intros j. rewrite Eo, Es. apply TS_cs. exact H1.
     + rewrite Eo. cbn. split; [|exact H2]. intros -> _.
       destruct (Hal eq_refl) as [Hs|Ha]; [contradiction|].
-      destruct c as [g|]; [|destruct Ha]. cbn in Ha, H8. destruct H8 as [r Er].
+      destruct c as [[r g]|]; [|destruct Ha]. cbn in Ha, H8. pose proof H8 as Er.
       exists r, g, done. split; [rewrite Hd1, Er, <- app_assoc; reflexivity | split; [exact Ha|]].
       intros g' j Hg Hj. rewrite H1. eapply Hd2; eassumption.
     + exists done. split; [rewrite E2; exact Hd1|]. rewrite Es. intros g j Hg Hj. unfold upd.
@@ -378,7 +386,7 @@ Proof. intros w H. exact H. Qed.
 Lemma OB_set_mood c sg0 fz m : m < 1 -> inv (OB c sg0 fz) (modw (set_mood m)).
 Proof.
   intros Hm w ((H1 & H2 & H3 & H4 & H5 & H6 & Hfz) & H7 & H8). cbn.
-  split; [repeat split; assumption | split; [exact H7 | destruct c; exact H8]].
+  split; [repeat split; assumption | split; [exact H7 | destruct c as [[r g]|]; exact H8]].
 Qed.
 
 Create HintDb orddb.
@@ -577,7 +585,7 @@ Proof.
   - apply tri_ret. intros w [H _]. exact H.
 Qed.
 Hint Resolve B_transition : orddb.
-Lemma B_reap c sg0 fz uel : inv (OB c sg0 fz) (Model.reap U pconfs fuel).
+Lemma B_reap c sg0 fz fuel : inv (OB c sg0 fz) (Model.reap U pconfs fuel).
 Proof. induction fuel as [|f IH]; cbn [Model.reap]; itac. Qed.
 Hint Resolve B_reap : orddb.
 
@@ -591,11 +599,11 @@ Proof.
   induction l as [|a l IH]; cbn; [auto|]. intros H. apply insert_by_in in H. destruct H as [->|H]; auto.
 Qed.
 
-Lemma B_stop_all sg0 fz g : inv (OB (Some g) sg0 fz) (Model.stop_all U pconfs gconfs g).
+Lemma B_stop_all sg0 fz r g : inv (OB (Some (r, g)) sg0 fz) (Model.stop_all U pconfs gconfs g).
 Proof.
   unfold Model.stop_all. apply inv_mapM_in. intros i Hi. apply in_rev in Hi. apply sort_by_in in Hi.
-  assert (Ha : allowed (Some g) i) by exact Hi.
-  pose proof (B_stop (Some g) sg0 fz i Ha) as Hs. itac.
+  assert (Ha : allowed (Some (r, g)) i) by exact Hi.
+  pose proof (B_stop (Some (r, g)) sg0 fz i Ha) as Hs. itac.
 Qed.
 
 Lemma B_handle_signal c sg0 fz : inv (OB c sg0 fz) handle_signal.
@@ -653,7 +661,7 @@ Proof.
   destruct (rev (stop_groups w0)) as [|g r] eqn:Er; [exact H0|].
   destruct (unstopped gconfs g w0) eqn:Eu; [exact H0|]. cbn.
   assert (Esg : stop_groups w0 = rev r ++ [g]) by (rewrite <- (rev_involutive (stop_groups w0)), Er; reflexivity).
-  destruct H0 as ((H1 & H2 & H3 & H4 & (done & Hd1 & Hd2) & (popped & H6)) & H7 & H8).
+  destruct H0 as ((H1 & H2 & H3 & H4 & (done & Hd1 & Hd2) & (popped & H6) & Hfz) & H7 & H8).
   split; [|split; [exact H7 | exact Logic.I]].
   repeat split; try assumption.
   - exists (g :: done). cbn. split; [rewrite Hd1, Esg, <- app_assoc; reflexivity|].
@@ -671,18 +679,21 @@ Definition loop_tail : Model.M unit :=
   bind (match rev (stop_groups w) with [] => ret tt | g :: _ => Model.stop_all U pconfs gconfs g end) (fun _ =>
   bind getw (fun w => if any_unstopped gconfs w then ret tt else modw set_exited))).
 
-Lemma L_tail sg0 fz : tri (OB None sg0 fz) loop_tail (fun _ w => OB None sg0 fz w \/ FIN sg0 fz w).
+Definition OBb (sg0 : list nat) (fz : nat -> Prop) (w : world) : Prop :=
+  OB None sg0 fz w /\ any_unstopped gconfs w = true.
+
+Lemma L_tail sg0 fz : tri (OB None sg0 fz) loop_tail (fun _ w => OBb sg0 fz w \/ FIN sg0 fz w).
 Proof.
   unfold loop_tail. apply tri_getw. intros w0 H0.
   apply (tri_bind _ _ _ (fun _ => OB None sg0 fz)).
   - destruct (rev (stop_groups w0)) as [|g r] eqn:Er; [apply tri_ret; intros w ->; exact H0|].
     assert (Esg : stop_groups w0 = rev r ++ [g]) by (rewrite <- (rev_involutive (stop_groups w0)), Er; reflexivity).
-    eapply tri_conseq; [apply (B_stop_all sg0 fz g) | | ].
-    + intros w ->. destruct H0 as (Hc & Hx & _). split; [exact Hc | split; [exact Hx | exists (rev r); exact Esg]].
+    eapply tri_conseq; [apply (B_stop_all sg0 fz (rev r) g) | | ].
+    + intros w ->. destruct H0 as (Hc & Hx & _). split; [exact Hc | split; [exact Hx | exact Esg]].
     + intros _ w (Hc & Hx & _). split; [exact Hc | split; [exact Hx | exact Logic.I]].
   - intros _. apply tri_getw. intros w1 H1 w ->.
-    destruct (any_unstopped gconfs w1) eqn:Eu; [left; exact H1|]. right. cbn.
-    destruct H1 as ((H1 & H2 & H3 & H4 & H5 & H6) & H7 & H8).
+    destruct (any_unstopped gconfs w1) eqn:Eu; [left; split; [exact H1 | exact Eu]|]. right. cbn.
+    destruct H1 as ((H1 & H2 & H3 & H4 & H5 & H6 & Hfz) & H7 & H8).
     split; [|split; [reflexivity | exact Eu]].
     repeat split; assumption.
 Qed.
@@ -696,20 +707,21 @@ Lemma loop_head_eq w :
 Proof. unfold Model.loop_head, bind at 1, getw at 1. destruct (mood w <? 1); reflexivity. Qed.
 
 Lemma L_A : tri OS (Model.loop_head U pconfs gconfs)
-                (fun _ w => OS w \/ OB None sorted_groups nofz w \/ FIN sorted_groups nofz w).
+                (fun _ w => (OS w /\ 1 <= mood w) \/ OBb sorted_groups nofz w \/ FIN sorted_groups nofz w).
 Proof.
-  intros w H0. rewrite loop_head_eq. destruct (mood w <? 1) eqn:Em; [|left; exact H0].
+  intros w H0. rewrite loop_head_eq. destruct (mood w <? 1) eqn:Em; [|left; split; [exact H0 | lia]].
   destruct H0 as (H1 & H2 & H3 & H4 & H5 & H6). rewrite H3.
   assert (HB : OB None sorted_groups nofz (set_out (ESup 2 :: out w) (set_stopping true sorted_groups w))).
   { split; [|split; [exact H6 | exact Logic.I]]. repeat split; cbn; try assumption; try lia.
     - exists []. split; [rewrite app_nil_r; reflexivity | intros g j []].
-    - exists []. rewrite app_nil_r. reflexivity. }
+    - exists []. rewrite app_nil_r. reflexivity.
+    - intros j []. }
   unfold bind at 1. unfold bind at 1, modw at 1, emit at 1.
   pose proof (L_tail sorted_groups nofz _ HB) as HT.
   destruct (loop_tail _) as [[a|] w']; [right; exact HT | exact Logic.I].
 Qed.
 
-Lemma L_B sg0 fz : tri (OB None sg0 fz) (Model.loop_head U pconfs gconfs) (fun _ w => OB None sg0 fz w \/ FIN sg0 fz w).
+Lemma L_B sg0 fz : tri (OB None sg0 fz) (Model.loop_head U pconfs gconfs) (fun _ w => OBb sg0 fz w \/ FIN sg0 fz w).
 Proof.
   intros w H0. rewrite loop_head_eq. pose proof (OB_mood _ _ _ _ H0) as Hm. replace (mood w <? 1) with true by lia.
   pose proof H0 as ((_ & _ & -> & _) & _). unfold bind at 1, ret at 1.
@@ -720,14 +732,14 @@ Ltac fold_inv := match goal with |- tri ?I ?m (fun _ => ?I) => change (inv I m) 
 Ltac pstep I := apply (tri_bind I _ _ (fun _ => I)); [fold_inv; solve [itac] | intros ?u; cbv beta].
 
 Lemma pass_A o : tri OS (Model.do_pass U pconfs gconfs o)
-                     (fun _ w => OS w \/ OB None sorted_groups nofz w \/ FIN sorted_groups nofz w).
+                     (fun _ w => (OS w /\ 1 <= mood w) \/ OBb sorted_groups nofz w \/ FIN sorted_groups nofz w).
 Proof. unfold Model.do_pass, transition_group, reap_all. do 6 pstep OS. exact L_A. Qed.
 
-Lemma pass_B sg0 fz o : tri (OB None sg0 fz) (Model.do_pass U pconfs gconfs o) (fun _ w => OB None sg0 fz w \/ FIN sg0 fz w).
+Lemma pass_B sg0 fz o : tri (OB None sg0 fz) (Model.do_pass U pconfs gconfs o) (fun _ w => OBb sg0 fz w \/ FIN sg0 fz w).
 Proof. unfold Model.do_pass, transition_group, reap_all. do 6 pstep (OB None sg0 fz). apply L_B. Qed.
 
 (* ---------- boundaries *)
-Definition BI (w : world) : Prop := OS w \/ exists sg0, OB None sg0 nofz w \/ FIN sg0 nofz w.
+Definition BI (w : world) : Prop := (OS w /\ 1 <= mood w) \/ exists sg0, OBb sg0 nofz w \/ FIN sg0 nofz w.
 
 Lemma K_pass w o : K w -> exists w', Model.do_pass U pconfs gconfs o w = (Some tt, w') /\ K w'.
 Proof. intros HK. destruct (do_pass_ipre U pconfs gconfs o w HK Logic.I) as ([] & w' & E & K'). eauto. Qed.
@@ -748,14 +760,14 @@ Qed.
 Lemma step_exited w o : exited w = true -> step w o = w.
 Proof. intros H. unfold Model.step. rewrite H, orb_true_r. reflexivity. Qed.
 
-Lemma Core_rebase sg0 w : Core sg0 nofz w -> Core (stop_groups w) nofz w.
+Lemma Core_rebase sg0 fz w : Core sg0 fz w -> Core (stop_groups w) fz w.
 Proof.
-  intros (H1 & H2 & H3 & H4 & H5 & H6). repeat split; try assumption. exists []. rewrite app_nil_r. reflexivity.
+  intros (H1 & H2 & H3 & H4 & H5 & H6 & H7). repeat split; try assumption. exists []. rewrite app_nil_r. reflexivity.
 Qed.
 
 Lemma BI_step w o : K w -> BI w -> BI (step w o).
 Proof.
-  intros HK [HA | (sg0 & [HB | HF])].
+  intros HK [[HA Hm] | (sg0 & [[HB Hu] | HF])].
   - pose proof HA as (_ & _ & _ & _ & _ & Hx).
     destruct (tri_pass _ _ w o HK Hx HA (pass_A o)) as [H | H]; [left; exact H | right; exists sorted_groups; exact H].
   - pose proof HB as (_ & Hx & _).
@@ -773,7 +785,7 @@ Proof.
 Qed.
 
 Theorem order_inv_run ops : BI (run ops).
-Proof. apply BI_fold; [apply K_world0 | left; exact OS_world0]. Qed.
+Proof. apply BI_fold; [apply K_world0 | left; split; [exact OS_world0 | cbn; lia]]. Qed.
 
 Lemma K_run ops : K (run ops).
 Proof. apply (track_run U pconfs gconfs ops). Qed.
@@ -785,9 +797,15 @@ Proof.
   apply existsb_exists in E. destruct E as (j & Hj & Hn). rewrite (H j Hj) in Hn. discriminate Hn.
 Qed.
 
+(* at a boundary, a mood below RUNNING means the shutdown has been announced *)
+Lemma BI_mood w : BI w -> mood w < 1 -> stopping w = true.
+Proof.
+  intros [[_ Hm] | (sg0 & [[((_&_&E&_)&_) _] | ((_&_&E&_)&_)])] H; [lia | exact E | exact E].
+Qed.
+
 Lemma BI_core w : BI w -> stopping w = true -> Core (stop_groups w) nofz w.
 Proof.
-  intros [HA | (sg0 & [HB | HF])] Hs.
+  intros [[HA _] | (sg0 & [[HB _] | HF])] Hs.
   - destruct HA as (_ & _ & E & _). congruence.
   - destruct HB as (Hc & _). eapply Core_rebase; exact Hc.
   - destruct HF as (Hc & _). eapply Core_rebase; exact Hc.
@@ -804,35 +822,40 @@ Theorem stop_groups_prefix ops :
                   forall g, In g done -> unstopped gconfs g w = false).
 Proof.
   cbv zeta. pose proof (order_inv_run ops) as HB. split.
-  - intros Hs. destruct HB as [HA | (sg0 & [((_&_&E&_)&_) | ((_&_&E&_)&_)])]; [|congruence|congruence].
+  - intros Hs. destruct HB as [[HA _] | (sg0 & [[((_&_&E&_)&_) _] | ((_&_&E&_)&_)])]; [|congruence|congruence].
     destruct HA as (_&_&_&_&E&_). exact E.
   - intros Hs. destruct (BI_core _ HB Hs) as (_ & _ & _ & Hm & (done & Hd1 & Hd2) & _).
     split; [exact Hm|]. exists done. split; [exact Hd1|]. intros g Hg. apply unstopped_intro. intros j Hj. eapply Hd2; eassumption.
 Qed.
 
-(* (a) step form: a pass removes groups only at the end of stop_groups, and only groups
-   whose processes are all stopped *)
-Theorem stop_groups_shrink ops o :
-  let w := run ops in
-  stopping w = true ->
+(* one pass from a boundary where the shutdown is announced: stop_groups loses elements at the
+   end only, and only groups whose processes are all stopped *)
+Lemma shrink_step w o :
+  K w -> BI w -> stopping w = true ->
   exists popped, stop_groups w = stop_groups (step w o) ++ popped /\
                  forall g, In g popped -> unstopped gconfs g (step w o) = false.
 Proof.
-  cbv zeta. intros Hs. set (w := run ops) in *. pose proof (order_inv_run ops) as HB. fold w in HB.
-  assert (HK : K w) by apply K_run.
+  intros HK HB Hs.
   assert (HC : Core (stop_groups w) nofz (step w o) /\ Core (stop_groups w) nofz w).
-  { destruct HB as [HA | (sg0 & [HB | HF])].
+  { destruct HB as [[HA _] | (sg0 & [[HB _] | HF])].
     - destruct HA as (_ & _ & E & _). congruence.
     - destruct HB as (Hc & Hx & _). apply Core_rebase in Hc. split; [|exact Hc].
-      destruct (tri_pass _ _ w o HK Hx (conj Hc (conj Hx Logic.I) : OB None (stop_groups w) nofz w) (pass_B _ _ o)) as [(H&_)|(H&_)]; exact H.
+      destruct (tri_pass _ _ w o HK Hx (conj Hc (conj Hx Logic.I) : OB None (stop_groups w) nofz w) (pass_B _ _ o)) as [((H&_)&_)|(H&_)]; exact H.
     - destruct HF as (Hc & Hx & _). rewrite (step_exited w o Hx). apply Core_rebase in Hc. split; exact Hc. }
-  destruct HC as [(_ & _ & _ & _ & (done' & Hd1' & Hd2') & (popped & Hp)) (_ & _ & _ & _ & (done & Hd1 & _) & _)].
+  destruct HC as [(_ & _ & _ & _ & (done' & Hd1' & Hd2') & (popped & Hp) & _) (_ & _ & _ & _ & (done & Hd1 & _) & _)].
   exists popped. split; [exact Hp|]. intros g Hg. apply unstopped_intro. intros j Hj.
   apply (Hd2' g j); [|exact Hj].
   assert (E : done' = popped ++ done).
   { apply (app_inv_head (stop_groups (step w o))). rewrite <- Hd1', Hd1, Hp, <- app_assoc. reflexivity. }
   rewrite E. apply in_or_app. left. exact Hg.
 Qed.
+
+Theorem stop_groups_shrink ops o :
+  let w := run ops in
+  stopping w = true ->
+  exists popped, stop_groups w = stop_groups (step w o) ++ popped /\
+                 forall g, In g popped -> unstopped gconfs g (step w o) = false.
+Proof. cbv zeta. apply shrink_step; [apply K_run | apply order_inv_run]. Qed.
 
 (* (b) the trace theorem *)
 Lemma ord_ok_spec o :
@@ -846,7 +869,7 @@ Qed.
 
 Lemma BI_ord w : BI w -> ord_ok (out w).
 Proof.
-  intros [HA | (sg0 & [HB | HF])]; [destruct HA as (_&H&_) | destruct HB as ((_&H&_)&_) | destruct HF as ((_&H&_)&_)]; exact H.
+  intros [[HA _] | (sg0 & [[HB _] | HF])]; [destruct HA as (_&H&_) | destruct HB as ((_&H&_)&_) | destruct HF as ((_&H&_)&_)]; exact H.
 Qed.
 
 Theorem shutdown_order ops pre i f x e post :
@@ -871,7 +894,7 @@ Theorem exit_all_stopped ops :
   let w := run ops in exited w = true -> forall g, unstopped gconfs g w = false.
 Proof.
   cbv zeta. intros Hx. apply any_unstopped_false.
-  destruct (order_inv_run ops) as [HA | (sg0 & [HB | HF])].
+  destruct (order_inv_run ops) as [[HA _] | (sg0 & [[HB _] | HF])].
   - destruct HA as (_&_&_&_&_&E). congruence.
   - destruct HB as (_&E&_). congruence.
   - destruct HF as (_&_&E). exact E.
@@ -891,10 +914,68 @@ Qed.
 Corollary exit_after_announcement ops :
   let w := run ops in exited w = true -> stopping w = true /\ mood w < 1.
 Proof.
-  cbv zeta. intros Hx. destruct (order_inv_run ops) as [HA | (sg0 & [HB | HF])].
+  cbv zeta. intros Hx. destruct (order_inv_run ops) as [[HA _] | (sg0 & [[HB _] | HF])].
   - destruct HA as (_&_&_&_&_&E). congruence.
   - destruct HB as (_&E&_). congruence.
   - destruct HF as ((_&_&H3&H4&_)&_). auto.
+Qed.
+
+(* ---------- two step-level facts used by the termination proof (Liveness.v) *)
+Lemma OB_fz c sg0 fz (fz' : nat -> Prop) w :
+  OB c sg0 fz w -> (forall j, fz' j -> in_stopped_states (sts w j) = true) -> OB c sg0 fz' w.
+Proof.
+  intros ((H1 & H2 & H3 & H4 & H5 & H6 & _) & H7 & H8) Hf.
+  split; [repeat split; assumption | split; assumption].
+Qed.
+
+(* once the shutdown is announced, the stopped states are absorbing *)
+Lemma stopped_absorbing_step w o i :
+  K w -> BI w -> stopping w = true ->
+  in_stopped_states (sts w i) = true -> in_stopped_states (sts (step w o) i) = true.
+Proof.
+  intros HK HB Hs Hi. destruct HB as [[HA _] | (sg0 & [[HB _] | HF])].
+  - destruct HA as (_ & _ & E & _). congruence.
+  - pose proof HB as (_ & Hx & _).
+    assert (HB' : OB None sg0 (fun j => j = i) w) by (eapply OB_fz; [exact HB | intros j ->; exact Hi]).
+    destruct (tri_pass _ _ w o HK Hx HB' (pass_B sg0 _ o)) as [(((_&_&_&_&_&_&Hf)&_)&_)|((_&_&_&_&_&_&Hf)&_)]; apply Hf; reflexivity.
+  - destruct HF as (_ & Hx & _). rewrite (step_exited w o Hx). exact Hi.
+Qed.
+
+(* a last group whose processes are all stopped is removed by the next pass *)
+Lemma B_phase2_pop sg0 (fz : nat -> Prop) r g :
+  (forall i, In i (g_procs (gc g)) -> fz i) ->
+  tri (OB (Some (r, g)) sg0 fz) (Model.phase2 gconfs) (fun _ => OB None r fz).
+Proof.
+  intros Hg. unfold Model.phase2. apply tri_getw. intros w0 H0 w ->.
+  pose proof (OB_mood _ _ _ _ H0) as Hm. replace (mood w0 <? 1) with true by lia.
+  destruct H0 as ((H1 & H2 & H3 & H4 & (done & Hd1 & Hd2) & (popped & H6) & Hfz) & H7 & H8). cbn in H8.
+  rewrite H8, rev_app_distr. cbn [rev app].
+  replace (unstopped gconfs g w0) with false
+    by (symmetry; apply unstopped_intro; intros j Hj; apply Hfz; apply Hg; exact Hj).
+  cbn. rewrite rev_involutive.
+  split; [|split; [exact H7 | exact Logic.I]].
+  repeat split; try assumption.
+  - exists (g :: done). cbn. split; [rewrite Hd1, H8, <- app_assoc; reflexivity|].
+    intros g' j [<-|Hg'] Hj; [apply Hfz; apply Hg; exact Hj | eapply Hd2; eassumption].
+  - exists []. rewrite app_nil_r. reflexivity.
+Qed.
+
+Lemma pop_step w o r g :
+  K w -> BI w -> stopping w = true -> exited w = false -> stop_groups w = r ++ [g] ->
+  (forall i, In i (g_procs (gc g)) -> in_stopped_states (sts w i) = true) ->
+  exists popped, r = stop_groups (step w o) ++ popped.
+Proof.
+  intros HK HB Hs Hx Esg Hall.
+  set (fz := fun i => In i (g_procs (gc g))).
+  assert (H0 : OB (Some (r, g)) (stop_groups w) fz w).
+  { pose proof (BI_core _ HB Hs) as Hc.
+    split; [|split; [exact Hx | exact Esg]].
+    destruct Hc as (H1 & H2 & H3 & H4 & H5 & H6 & _). repeat split; assumption. }
+  assert (HT : tri (OB (Some (r, g)) (stop_groups w) fz) (Model.do_pass U pconfs gconfs o)
+                   (fun _ w' => OBb r fz w' \/ FIN r fz w')).
+  { unfold Model.do_pass, transition_group, reap_all. do 5 pstep (OB (Some (r, g)) (stop_groups w) fz).
+    eapply tri_bind; [apply B_phase2_pop; auto | intros ?u; apply L_B]. }
+  destruct (tri_pass _ _ w o HK Hx H0 HT) as [(((_&_&_&_&_&Hp&_)&_)&_)|((_&_&_&_&_&Hp&_)&_)]; exact Hp.
 Qed.
 
 End WithConfig.
